@@ -81,6 +81,11 @@ type task struct {
 	waitOnc *OnceState
 	op      int32
 	local   uint64
+	// waiting on a channel (polling): spinAt is the value of the progress
+	// counter when the task last found the channel not ready
+	spinning  bool
+	spinAt    uint64
+	idleSpins int
 }
 
 // Switch is one entry of a recorded or replayed schedule: when task From is at
@@ -127,6 +132,7 @@ type Stats struct {
 	SyncHash       uint64
 	SyncEvents     uint64
 	AtomicPoints   uint64 // decision points at sync.Map / sync.Pool / sync/atomic operations
+	ChanWaits      uint64 // times a task found a channel operation not ready and let others run
 	Blocked        uint64
 	ReaderPendingW uint64
 	OverlapSame    uint64
@@ -168,6 +174,11 @@ var (
 
 	lockEpoch uint32
 	lockOrd   int32
+
+	// progress counts decision points passed by tasks that are not waiting
+	// on a channel: a waiting task that finds it unchanged since it last
+	// looked knows that nobody has done anything in between
+	progress uint64
 
 	siteSet   uint32 = ^uint32(0)
 	siteClear uint32 = ^uint32(0)
@@ -267,6 +278,7 @@ func Decision(site uint32) {
 //go:norace
 func point(site uint32, boosted bool) {
 	steps++
+	progress++
 	t := &tasks[cur]
 	t.last = site
 	t.local++
